@@ -123,8 +123,8 @@ Qed.
 (* every two fields collected under one response key in a selection set
    (through inline fragments) are pairwise mergeable when the rule is silent
    on that selection set *)
-Theorem within_silent fuel s frs parent sels st st' :
-  run_list fuel s frs (selset_calls s parent sels) st false = Ok (false, st') ->
+Theorem within_silent fuel s frs parent l sels st st' :
+  run_list fuel s frs (selset_calls s parent l sels) st false = Ok (false, st') ->
   forall key fs f1 f2,
     In (key, fs) (fst (fields_and_fragments s parent sels)) -> In (f1, f2) (perms fs) ->
     pair_mergeable s f1 f2.
